@@ -165,5 +165,5 @@ def hyp_cases(tier):
 
 PARTS = [
     Part("single-steps", run_history, enum=enum_cases),
-    Part("histories", run_history, strategy=hyp_cases, n={"quick": 300, "thorough": 30000}),
+    Part("histories", run_history, strategy=hyp_cases, n={"quick": 300, "thorough": 120000}),
 ]
